@@ -2,6 +2,7 @@ CONSTANTS
   Dev = {"BugControlInString"}
   Alphabet <- AlphaEsc
   MaxLen = 3
+  Prune = FALSE
   DepthProbe = {256}
 INIT Init
 NEXT Next
